@@ -197,7 +197,4 @@ func cmdCheck(args []string) int {
 	return 1
 }
 
-// tryReplay attempts to turn the solver's model into a run of the real code. Returns true if the failure reproduced.
-func tryReplay(e *Engine, rep *FnReport, o *Obligation, ob *OblReport, verifDir string, content map[string]interface{}) bool {
-	return false
-}
+
